@@ -49,4 +49,36 @@ PROPS = {
               {"asan": {"workers": 10}, "plain": {"workers": 6}},
               {"asan": {"workers": 10}, "plain": {"workers": 6}}),
     ),
+    "C09": dict(
+        level="fault_enumeration",
+        rule=("one plan = one generated program; it is executed fault-free to record every callback invocation (site, occurrence) and script "
+              "throw site, then EVERY recorded crash point x every exception kind of the plan (all 10 kinds in thorough, a seeded subset of 4 in "
+              "quick) is executed on a fresh engine (seeded sample of 60/120 points x kinds only when a program has more). evaluations = "
+              "individual executions; distinct non-trivial = executions in which the injected fault actually fired (each is a distinct "
+              "(program, site, occurrence, kind) tuple). Oracle: H3 stack shape after == before for every eval, get_locals == completed "
+              "top-level declarations, fixed follow-up script == pristine answer."),
+        real_vs_stub=REAL,
+        assumptions=COMMON_ASSUME + ["crash points are exhaustive per generated program, programs themselves are sampled",
+                                     "Conversion_Saves::saves.size() is deliberately not part of the compared shape (a converted temporary legitimately stays until the next call)"],
+        expected_probes=["probe_exception_left_eval", "probe_fault_absorbed_inside_script", "fault_script_throw", "on_worker_thread"],
+        **two(40, 420,
+              {"plain": {"workers": 10}, "asan": {"workers": 6}},
+              {"plain": {"workers": 10}, "asan": {"workers": 6}}),
+    ),
+    "C19": dict(
+        level="exploration",
+        rule=("fixed matrix, executed completely in both tiers: file length 0..8 x {no BOM, BOM, partial BOM} x {no fault, 1-byte short reads, "
+              "EINTR} x {eval_file, use} = 162 cases; then seeded random histories of <=12/16 operations (write/delete files, eval_file and "
+              "use from C++ and from script) over <=4 file names in <=3 directories with permuted search paths, bodies with BOM / double BOM / "
+              "CRLF / shebang / trailing NULs / nested and cyclic use() / syntax errors, with per-operation short reads, EINTR and failing opens "
+              "injected by the simulated file layer. distinct = hash of the operation list and search path; non-trivial = at least one file "
+              "API operation. Oracle: twin engine evaluating the same bytes with eval(), driven by a model of search path + used-file set."),
+        real_vs_stub=REAL + " file layer: fopen/fopen64/read of files under the run directory are interposed (faults); the files themselves are real.",
+        assumptions=COMMON_ASSUME + ["hard I/O errors (EIO, ENOSPC) are not injected: the property says nothing about them",
+                                     "a used file counts as used from the start of its evaluation and stops counting if that evaluation fails (mirrors the engine after the fix)"],
+        expected_probes=["fault_short_read", "fault_eintr", "fault_open_fail", "probe_file_shorter_than_bom", "probe_file_not_found"],
+        **two(30, 300,
+              {"plain": {"workers": 8, "fixed": True}, "asan": {"workers": 8, "fixed": True}},
+              {"plain": {"workers": 8, "fixed": True}, "asan": {"workers": 8, "fixed": True}}),
+    ),
 }
